@@ -16,15 +16,25 @@ import (
 
 type addr string
 
+//go:norace
 func (a addr) Network() string { return "mem" }
-func (a addr) String() string  { return string(a) }
+
+//go:norace
+func (a addr) String() string { return string(a) }
 
 type timeoutErr struct{}
 
-func (timeoutErr) Error() string   { return "i/o timeout" }
-func (timeoutErr) Timeout() bool   { return true }
+//go:norace
+func (timeoutErr) Error() string { return "i/o timeout" }
+
+//go:norace
+func (timeoutErr) Timeout() bool { return true }
+
+//go:norace
 func (timeoutErr) Temporary() bool { return true }
-func (timeoutErr) Unwrap() error   { return os.ErrDeadlineExceeded }
+
+//go:norace
+func (timeoutErr) Unwrap() error { return os.ErrDeadlineExceeded }
 
 // Conn is the broker-side end of an in-memory connection. The driver plays the peer.
 type Conn struct {
@@ -44,16 +54,28 @@ type Conn struct {
 	ShortReads      bool // deliver one byte per Read
 	ClosedAtOut     int  // len(Out) at the time of Close
 	ReadsAfterClose int
+	rname           string
 }
 
+//go:norace
+func (c *Conn) readName() string {
+	if c.rname == "" {
+		c.rname = fmt.Sprintf("conn%d.Read", c.ID)
+	}
+	return c.rname
+}
+
+//go:norace
 func (c *Conn) now() time.Time {
 	return time.Unix(zzvrt.VirtualEpochUnix, 0).Add(time.Duration(c.X.NowMillis()) * time.Millisecond)
 }
 
+//go:norace
 func (c *Conn) deadlinePassed() bool {
 	return !c.deadline.IsZero() && !c.now().Before(c.deadline)
 }
 
+//go:norace
 func (c *Conn) Read(p []byte) (int, error) {
 	if zzvrt.Killed() {
 		return 0, net.ErrClosed
@@ -78,7 +100,7 @@ func (c *Conn) Read(p []byte) (int, error) {
 			c.TimedOut = true
 			return 0, timeoutErr{}
 		}
-		zzvrt.Block(zzvrt.BlockIO, fmt.Sprintf("conn%d.Read", c.ID), func() bool {
+		zzvrt.Block(zzvrt.BlockIO, c.readName(), func() bool {
 			return c.Closed || len(c.in) > 0 || c.peerClosed || c.deadlinePassed()
 		})
 	}
@@ -86,6 +108,7 @@ func (c *Conn) Read(p []byte) (int, error) {
 
 var errInjected = errors.New("injected write failure")
 
+//go:norace
 func (c *Conn) Write(p []byte) (int, error) {
 	if zzvrt.Killed() {
 		return 0, net.ErrClosed
@@ -106,6 +129,7 @@ func (c *Conn) Write(p []byte) (int, error) {
 	return len(p), nil
 }
 
+//go:norace
 func (c *Conn) Close() error {
 	if c.Closed {
 		return net.ErrClosed
@@ -118,27 +142,44 @@ func (c *Conn) Close() error {
 	return nil
 }
 
-func (c *Conn) LocalAddr() net.Addr  { return addr("broker") }
+//go:norace
+func (c *Conn) LocalAddr() net.Addr { return addr("broker") }
+
+//go:norace
 func (c *Conn) RemoteAddr() net.Addr { return addr(fmt.Sprintf("peer%d", c.ID)) }
+
+//go:norace
 func (c *Conn) SetDeadline(t time.Time) error {
 	c.deadline = t
 	return nil
 }
-func (c *Conn) SetReadDeadline(t time.Time) error  { c.deadline = t; return nil }
+
+//go:norace
+func (c *Conn) SetReadDeadline(t time.Time) error { c.deadline = t; return nil }
+
+//go:norace
 func (c *Conn) SetWriteDeadline(t time.Time) error { return nil }
 
 // ---- driver side ----
 
 // Send appends bytes from the peer.
+//
+//go:norace
 func (c *Conn) Send(b []byte) { c.in = append(c.in, b...) }
 
 // PeerClose makes the peer drop the connection.
+//
+//go:norace
 func (c *Conn) PeerClose() { c.peerClosed = true }
 
 // Pending returns unread inbound byte count.
+//
+//go:norace
 func (c *Conn) Pending() int { return len(c.in) }
 
 // Take returns the bytes written by the broker since the last Take.
+//
+//go:norace
 func (c *Conn) Take() []byte {
 	b := c.Out[c.taken:]
 	c.taken = len(c.Out)
@@ -146,6 +187,8 @@ func (c *Conn) Take() []byte {
 }
 
 // Deadline returns the deadline the broker last set.
+//
+//go:norace
 func (c *Conn) Deadline() time.Time { return c.deadline }
 
 // Listener is an in-memory net.Listener whose Accept is a scheduling point.
@@ -155,6 +198,7 @@ type Listener struct {
 	Closed bool
 }
 
+//go:norace
 func (l *Listener) Accept() (net.Conn, error) {
 	if zzvrt.Killed() {
 		return nil, net.ErrClosed
@@ -173,6 +217,7 @@ func (l *Listener) Accept() (net.Conn, error) {
 	}
 }
 
+//go:norace
 func (l *Listener) Close() error {
 	if !zzvrt.Killed() {
 		zzvrt.Point("listener.Close")
@@ -183,7 +228,11 @@ func (l *Listener) Close() error {
 	l.Closed = true
 	return nil
 }
+
+//go:norace
 func (l *Listener) Addr() net.Addr { return addr("memlistener") }
 
 // Dial queues a connection for Accept.
+//
+//go:norace
 func (l *Listener) Dial(c *Conn) { l.queue = append(l.queue, c) }
